@@ -28,6 +28,18 @@ def opt(vals):
     return '[' + '; '.join('None' if x != x else f'(Some {int(x)})' for x in vals) + ']'
 
 
+def spec_centres(d):
+    """cell centres in linear order straight from the generator's description of the dataset (None: not described)"""
+    s = d.spec
+    if d.family == 'cf1d':
+        return [(float(x), float(y)) for y in s['lat'] for x in s['lon']]
+    if d.family in ('cf2d', 'shoc_simple'):
+        return [(float(x), float(y)) for x, y in zip(numpy.asarray(s['lon']).reshape(-1), numpy.asarray(s['lat']).reshape(-1))]
+    if d.family == 'shoc_standard':
+        return [(float(x), float(y)) for x, y in zip(numpy.asarray(s['xc']).reshape(-1), numpy.asarray(s['yc']).reshape(-1))]
+    return None
+
+
 def run(ctx):
     rng = ctx.rng
     quick = ctx.tier == 'quick'
@@ -59,6 +71,9 @@ def run(ctx):
         # conventions that store their cell corners
         if fam is not None:
             kw = {'invalid': (n // len(gen.FAMILIES)) % 2 == 0} if fam != 'cf1d' else {}
+            if fam == 'shoc_standard' and (n // len(gen.FAMILIES)) % 2 == 1:
+                kw['transposed_coords'] = ('x_centre',)          # face longitude stored (i, j), face latitude (j, i)
+                kw['nj'], kw['ni'] = rng.choice([(2, 3), (3, 2), (3, 4)])
             d = gen.any_dataset(rng, fam, **kw)
         ds = d.ds
         gdims = d.spec['kinds']['face']
@@ -67,6 +82,9 @@ def run(ctx):
             ems = ds.ems
             polys = list(ems.polygons)
             centres = numpy.asarray(ems.face_centres)
+            sc = spec_centres(d)
+            if sc is not None and len(sc) == len(centres):
+                centres = numpy.asarray(sc)          # independent of the implementation
         ncell = len(polys)
         holes = sum(1 for p in polys if p is None)
         if holes == ncell:
